@@ -135,7 +135,7 @@ def barnesg(ctx, z):
 
 @defun
 def superfac(ctx, z):
-    return ctx.barnesg(z+2)
+    return ctx.barnesg(ctx.convert(z)+2)
 
 @defun_wrapped
 def hyperfac(ctx, z):
